@@ -12,6 +12,7 @@ import JominiModel.Proofs.TextTapeFaithful3
 import JominiModel.Proofs.WriterGenParse
 import JominiModel.Proofs.WriterBinary
 import JominiModel.Proofs.WriterMixedParse
+import JominiModel.Proofs.WriterSink
 /-
 C15 — Well-formed sequences of writer calls parse back to exactly what was written.
 Only property theorems live here; helper lemmas are in `Proofs/Writer.lean`, reference
@@ -591,6 +592,58 @@ theorem C15_float_text_shape (t : Bytes) (h : FloatText t) :
 example : FloatText [45, 48, 46, 51, 48, 48, 48, 48, 48, 48, 48, 48, 48, 48, 48, 48, 48, 48, 48, 48, 52] :=
   ⟨true, [48], [46, 51, 48, 48, 48, 48, 48, 48, 48, 48, 48, 48, 48, 48, 48, 48, 48, 48, 52], rfl, by simp, by decide,
     .inr ⟨_, rfl, by simp, by decide⟩⟩
+
+/-- **I/O errors** ("misordered calls … return an error or well-defined output, never a panic",
+extended to a failing sink).  `runSink cap` (Model/WriterSink.lean) runs the call list on a writer
+whose sink accepts the first `cap` bytes and then refuses every non-empty write — every call
+mirrored statement by statement, the `?` after each write leaving the call with what was assigned to
+`self` before.  For EVERY call list (well-formed or not), every `cap`, indent byte and factor,
+compared with the same calls on an unlimited sink (`run`):
+
+  * the bytes that reached the sink are exactly the first `min cap len` bytes of the full output;
+  * some call returns `Err(io)` exactly when the full output is longer than `cap`;
+  * no call panics, before or after the failure, whatever state the failed call left behind;
+  * when the output fits, the two runs are identical (final writer, every observation, every
+    `StackEmpty`);
+  * otherwise there is a first failing call `k`: the writer and every observation / result before it
+    (`depth()`, `expecting_key()`, `at_array_value()`, `at_unknown_start()`, the whole private state)
+    are those of the unlimited run, and call `k` returns `Err(io)`.
+
+The model is tied to the real writer by the correspondence op `wcallsw` (bytes in the sink, result
+and observations of every call — also after the failure —, private state at the end). -/
+theorem C15_failing_sink (cs : List Call) (cap : Nat) (c : UInt8) (f : Nat) :
+    (runSink cap cs (State.init c f)).1.out = (run cs (State.init c f)).1.out.take cap ∧
+    ((∃ x ∈ (runSink cap cs (State.init c f)).2, x = .error .io) ↔ cap < (run cs (State.init c f)).1.out.length) ∧
+    (∀ x ∈ (runSink cap cs (State.init c f)).2, x ≠ .error .panic ∧ x ≠ .error .fuel) ∧
+    ((run cs (State.init c f)).1.out.length ≤ cap → runSink cap cs (State.init c f) = run cs (State.init c f)) ∧
+    (cap < (run cs (State.init c f)).1.out.length → ∃ k, k < cs.length ∧
+      runSink cap (cs.take k) (State.init c f) = run (cs.take k) (State.init c f) ∧
+      (runSink cap cs (State.init c f)).2.take k = (run cs (State.init c f)).2.take k ∧
+      (∀ x ∈ (runSink cap cs (State.init c f)).2.take k, x ≠ .error .io) ∧
+      (runSink cap cs (State.init c f)).2[k]? = some (.error .io)) := by
+  obtain ⟨h1, h2, h3, h4⟩ := sink_run cap cs (State.init c f) (by simp [State.init])
+  refine ⟨h1, ⟨fun ⟨x, hx, hio⟩ => ?_, fun hl => ?_⟩, h2, h3, fun hl => ?_⟩
+  · by_cases hl : cap < (run cs (State.init c f)).1.out.length
+    · exact hl
+    · rw [h3 (by omega)] at hx
+      exact absurd hio (run_rows_clean cs _ x hx).1
+  · obtain ⟨k, _, _, _, hk⟩ := h4 hl
+    exact ⟨_, List.mem_of_getElem? hk, rfl⟩
+  · obtain ⟨k, hk, e1, e2, e3⟩ := h4 hl
+    refine ⟨k, hk, e1, e2, fun x hx => ?_, e3⟩
+    rw [e2] at hx
+    exact (run_rows_clean cs _ x (List.mem_of_mem_take hx)).1
+
+/-- `a={⏎  b⏎}` needs 9 bytes; with room for 6 the sink holds `a={⏎  `, `write_unquoted(b)` is the first
+call that fails, `write_end` fails too, and the failed calls have left the newline flag cleared -/
+example : (runSink 6 [.unquoted [97], .arrayStart, .unquoted [98], .end] (State.init 32 2)).1.out =
+      [97, 61, 123, 10, 32, 32] ∧
+    (runSink 6 [.unquoted [97], .arrayStart, .unquoted [98], .end] (State.init 32 2)).2.map
+        (fun r => match r with | .ok o => some (some o.depth) | .error .io => some none | .error _ => none) =
+      [some (some 0), some (some 1), some none, some none] ∧
+    (run [.unquoted [97], .arrayStart, .unquoted [98], .end] (State.init 32 2)).1.out =
+      [97, 61, 123, 10, 32, 32, 98, 10, 125] := by
+  decide +kernel
 
 /-
 Growth theorem, NOT proved in general (full statement kept; `C15_lexemes_partial` is its flat instance):
